@@ -498,7 +498,7 @@ pub fn check_main(a: CheckArgs) -> i32 {
                 "runs_per_host_dimension": dims,
                 "executions_that_died": deaths,
                 "runs_skipped_after_repeated_deaths": skipped_after_deaths,
-                "solo": {"modules": modules, "tasks": tasks_n, "processes_per_task": solo_tables_n, "solo_executions": solo_evals, "tasks_with_process_dependent_result": unstable.len(), "table_ms_max": solo_ms},
+                "solo": {"modules": modules, "tasks": tasks_n, "processes_per_task": format!("{solo_tables_n} (2 for the twelve covering-array option sets)"), "solo_executions": solo_evals, "tasks_with_process_dependent_result": unstable.len(), "table_ms_max": solo_ms},
                 "generated_workload": {"modules_generated": gen_stats.get("generated"), "of_which_tsx": gen_stats.get("ts"), "dropped_as_unparseable": gen_stats.get("unparseable"), "with_diagnostics": gen_stats.get("with_diags"), "solo_executions": gen_stats.get("solo_execs"),
                     "note": "stratum `gen`: every run draws 1-3 fresh modules and option sets from its PRNG (sim/src/gen.rs), computes their solo references in two fresh processes with different hash keys (T, R and the fresh-process clause of D on each module alone), and runs what returns next to each other and next to bystanders from the fixed workload on a randomly drawn host with faults; a violating module's text is minimised line by line and embedded in the replay file"},
                 "world": world,
